@@ -700,6 +700,7 @@ func (a *Aff) threadFlag(cond ssa.Value, val bool, d, b *ssa.BasicBlock) []Con {
 	if src == nil || src == b {
 		return nil
 	}
+	d = flagBlock(cond) // the block whose phis were fixed by entering from src (d itself, or a dominator)
 	var old []Con // expressed over the values as they were when control left src
 	old = append(old, a.FactsAt(src)...)
 	if sif, ok := lastInstr(src).(*ssa.If); ok && len(src.Succs) == 2 && src.Succs[0] != src.Succs[1] {
